@@ -182,6 +182,10 @@ func (g *gen) call(instr ssa.Instruction, c *ssa.CallCommon, pos token.Pos) Val 
 					}
 				}
 			}
+			if g.astValid && isRxExpr(p.Type()) && i < len(args) {
+				g.declRx(p.Type())
+				g.obligeAndAssume("nilarg", g.label(pos, callee.Name(), "call")+" arg "+p.Name()+" is a valid regexp expression", app("rxvalid", args[i].T), pos)
+			}
 			if g.astValid && args[i].Place == nil {
 				// callees assume that syntax-node arguments are nodes of the analysed tree (or nil, for interface-typed ones)
 				g.declTnode()
@@ -219,7 +223,7 @@ func (g *gen) call(instr ssa.Instruction, c *ssa.CallCommon, pos token.Pos) Val 
 		}
 		// no contract: inferred frame, unconstrained results
 		g.frameCheckKeys(g.e.modSetOf(callee), pos, callee.Name())
-		g.havocKeys(g.e.modSetOf(callee))
+		g.havocKeysKeepingOld(g.e.modSetOf(callee), g.e.oldWriteSet(callee), len(callee.FreeVars) > 0)
 		g.tick()
 		return g.resultVal(sig, func(i int, t types.Type) Val { v := g.freshVal("ret_"+callee.Name(), t); g.notePtr(v); return v })
 	}
@@ -302,6 +306,37 @@ func (g *gen) call(instr ssa.Instruction, c *ssa.CallCommon, pos token.Pos) Val 
 	}
 	g.tick()
 	return g.resultVal(sig, func(i int, t types.Type) Val { v := g.freshVal("ret_"+callee.Name(), t); g.notePtr(v); return v })
+}
+
+// havocKeysKeepingOld: keys the callee writes only on objects it allocates itself keep their values on every object that
+// existed before the call.
+func (g *gen) havocKeysKeepingOld(keys, oldKeys map[string]bool, closure bool) {
+	if keys["*"] || oldKeys["*"] || closure {
+		g.havocKeys(keys)
+		return
+	}
+	nowBefore := g.now()
+	var ks []string
+	for k := range keys {
+		ks = append(ks, k)
+	}
+	sort.Strings(ks)
+	for _, k := range ks {
+		prev := g.cur.heap[k]
+		if prev == "" {
+			if _, known := g.heapSort[k]; known {
+				prev = "H0_" + sanitize(k)
+			}
+		}
+		g.heapHavoc(k)
+		cur := g.cur.heap[k]
+		if oldKeys[k] || prev == "" || cur == "" || cur == prev || !(strings.HasPrefix(k, "F|") || strings.HasPrefix(k, "E|") || strings.HasPrefix(k, "C|")) {
+			continue
+		}
+		o := g.freshName("fo")
+		g.assumed["a callee without contract that writes a field only on objects it allocated itself leaves that field unchanged on all earlier objects (syntactic scan of the callee and its callees)"] = true
+		g.assumeGlobal(fmt.Sprintf("(forall ((%s Int)) (! (=> (<= (birth %s) %s) (= (select %s %s) (select %s %s))) :pattern ((select %s %s))))", o, o, nowBefore, cur, o, prev, o, cur, o))
+	}
 }
 
 func (g *gen) havocKeys(keys map[string]bool) {
@@ -847,7 +882,40 @@ func (e *Engine) modSetOf(fn *ssa.Function) map[string]bool {
 	return m
 }
 
+// oldWriteSet: the keys fn may write on objects that it (or a function it calls) did not allocate itself. Keys of modSetOf(fn)
+// that are not in this set are only written on fresh objects: everything that existed before the call keeps its value there.
+func (e *Engine) oldWriteSet(fn *ssa.Function) map[string]bool {
+	if e.oldset == nil {
+		e.oldset = map[*ssa.Function]map[string]bool{}
+	}
+	if m, ok := e.oldset[fn]; ok {
+		return m
+	}
+	m := map[string]bool{}
+	e.oldset[fn] = m
+	changed := true
+	for changed {
+		changed = false
+		e.scanWritesOld(fn, func(string) {}, func(k string) {
+			if !m[k] {
+				m[k] = true
+				changed = true
+			}
+		})
+	}
+	return m
+}
+
 func (e *Engine) scanWrites(fn *ssa.Function, add func(string)) {
+	e.scanWritesOld(fn, add, nil)
+}
+
+func (e *Engine) scanWritesOld(fn *ssa.Function, add func(string), addOld func(string)) {
+	old := func(k string) {
+		if addOld != nil {
+			addOld(k)
+		}
+	}
 	st := newSortTable()
 	var addrKey func(v ssa.Value) []string
 	addrKey = func(v ssa.Value) []string {
@@ -894,12 +962,19 @@ func (e *Engine) scanWrites(fn *ssa.Function, add func(string)) {
 				}
 				for _, k := range addrKey(ins.Addr) {
 					add(k)
+					if !rootIsAlloc(ins.Addr, 0) {
+						old(k)
+					}
 				}
 			case *ssa.MapUpdate:
 				mt := ins.Map.Type().Underlying().(*types.Map)
 				ks, vs := st.sortOf(mt.Key()), st.sortOf(mt.Elem())
 				add(mapDomKey(ks, vs))
 				add(mapValKey(ks, vs))
+				if _, fresh := ins.Map.(*ssa.MakeMap); !fresh {
+					old(mapDomKey(ks, vs))
+					old(mapValKey(ks, vs))
+				}
 			case ssa.CallInstruction:
 				c := ins.Common()
 				if bi, ok := c.Value.(*ssa.Builtin); ok {
@@ -907,12 +982,15 @@ func (e *Engine) scanWrites(fn *ssa.Function, add func(string)) {
 					case "append", "copy":
 						if sl, ok := c.Args[0].Type().Underlying().(*types.Slice); ok {
 							add(elemKey(st.sortOf(sl.Elem())))
+							old(elemKey(st.sortOf(sl.Elem())))
 						}
 					case "delete":
 						mt := c.Args[0].Type().Underlying().(*types.Map)
 						add(mapDomKey(st.sortOf(mt.Key()), st.sortOf(mt.Elem())))
+						old(mapDomKey(st.sortOf(mt.Key()), st.sortOf(mt.Elem())))
 					case "clear":
 						add("*")
+						old("*")
 					}
 					continue
 				}
@@ -922,6 +1000,7 @@ func (e *Engine) scanWrites(fn *ssa.Function, add func(string)) {
 				if c.IsInvoke() {
 					for k := range e.invokeModSet(c) {
 						add(k)
+						old(k)
 					}
 					continue
 				}
@@ -934,6 +1013,7 @@ func (e *Engine) scanWrites(fn *ssa.Function, add func(string)) {
 				}
 				if callee == nil {
 					add("*")
+					old("*")
 					continue
 				}
 				if e.inRepo(callee) {
@@ -943,6 +1023,18 @@ func (e *Engine) scanWrites(fn *ssa.Function, add func(string)) {
 					for k := range e.modSetOf(callee) {
 						add(k)
 					}
+					if addOld != nil {
+						if len(callee.FreeVars) > 0 {
+							// a closure writes variables of its parent: treat all of its writes as writes to existing objects
+							for k := range e.modSetOf(callee) {
+								old(k)
+							}
+						} else {
+							for k := range e.oldWriteSet(callee) {
+								old(k)
+							}
+						}
+					}
 				} else {
 					// external: places passed by address may be written
 					for _, a := range c.Args {
@@ -950,6 +1042,9 @@ func (e *Engine) scanWrites(fn *ssa.Function, add func(string)) {
 						case *ssa.FieldAddr, *ssa.IndexAddr:
 							for _, k := range addrKey(a) {
 								add(k)
+								if !rootIsAlloc(a, 0) {
+									old(k)
+								}
 							}
 						}
 					}
